@@ -11,43 +11,12 @@ end-to-end streams with the real generators (harness/e2e: c05, initrace) are exp
 import json
 import os
 
+from checks import e2e_common
+
 import importlib
 c03check = importlib.import_module("checks.C03")  # shares the harness, the system model and the oracle plumbing
 
 THEOREMS = ["IstioModel.C05.Theorems"]
-
-
-def e2e(ctx, stream, ncases, clause_prefix):
-    """Run one end-to-end stream of harness/e2e; FAIL lines are violations found on the real server."""
-    if not os.path.isdir(os.path.join(os.path.dirname(os.path.dirname(os.path.abspath(__file__))), "harness", "e2e")):
-        ctx.count("e2e.%s.skipped-not-built" % stream)
-        return
-    out = os.path.join(ctx.work, "e2e.%s.out" % stream)
-    if os.path.exists(out):
-        os.remove(out)
-    rc, log = ctx.harness("run", stream, ctx.seed, ncases, out, pkg="e2e", timeout=1500)
-    if rc != 0 or not os.path.exists(out):
-        ctx.tie_broken("e2e-run:%s" % stream, log)
-        return
-    for line in ctx.read_lines(out):
-        if line.startswith("STATS"):
-            try:
-                ctx.extra["e2e_%s" % stream] = json.loads(line[6:])
-            except ValueError:
-                pass
-            continue
-        ctx.note_case("e2e:%s:%s" % (stream, line), True,
-                      {"stream": "e2e/" + stream, "result": line[:400]} if not any(s.get("stream") == "e2e/" + stream for s in ctx.samples) else None)
-        ctx.count("e2e.%s.%s" % (stream, line.split(" ", 1)[0]))
-        if line.startswith("FAIL"):
-            parts = line.split(" ", 2)
-            clause = parts[1] if len(parts) > 1 else "unknown"
-            if clause == "harness-timeout":
-                ctx.count("e2e.%s.timeouts" % stream)
-                continue
-            ctx.violation("%s:%s" % (clause_prefix, clause),
-                          "real DiscoveryServer with real generators: %s (%s)" % (clause, stream),
-                          {"stream": "e2e/" + stream, "line": line}, True)
 
 
 def warm(ctx):
@@ -113,14 +82,24 @@ def run(ctx):
     # EDS-before-CDS with a changed cluster set on the real ShouldRespond/Send/NewWatchedResource (harness c04, stream
     # `warm`), against the C04 model (theorem eds_after_cds_answered_any_names) and the clause oracle
     warm(ctx)
-    if os.path.isdir(os.path.join(os.path.dirname(os.path.dirname(os.path.abspath(__file__))), "harness", "e2e", "READY")) or \
-            os.path.exists(os.path.join(os.path.dirname(os.path.dirname(os.path.abspath(__file__))), "harness", "e2e", "READY")):
-        if ctx.go_build(pkg="e2e"):
-            e2e(ctx, "c05", ctx.n(12, 200), "e2e")
-            e2e(ctx, "initrace", ctx.n(3, 20), "e2e")
+    # the statement itself on the REAL generators (harness/e2e): cuts at every kind of point, changes while away,
+    # reconnect to the same or a second server with the retained state; and the registration window of initConnection
+    e2e_common.run(ctx, "c05", ctx.n(20, 400))
+    e2e_common.run(ctx, "initrace", ctx.n(12, 100))
 
 
 def replay(ctx, path):
+    import json
+    rep = json.load(open(path)).get("replay", {})
+    if e2e_common.is_e2e_replay(rep):
+        return e2e_common.replay(ctx, rep)
+    if rep.get("stream") == "warm":
+        import checks.C04 as c04check
+        ctx.lc = "c04"  # the warm stream runs on the C04 harness and driver
+        try:
+            return c04check.replay(ctx, path)
+        finally:
+            ctx.lc = "c05"
     return c03check.replay(ctx, path)
 
 
